@@ -151,6 +151,7 @@ def run(ctx):
     samples, distinct, internal_followups = [], set(), 0
     n_transitive_reachable = 0
     flow_transitive = {}
+    name_relations = {}
     diffs = []
     for r in cases:
         cid, sexp, real_raw, shape, same = r[0], r[2], r[3], r[4], r[5]
@@ -160,6 +161,19 @@ def run(ctx):
             internal_followups += 1
         pred = (model.get(cid) or ["<no model output>"])[0]
         shapes[shape] = shapes.get(shape, 0) + 1
+        # package names: is some package's name a proper prefix of another's (or equal up to case)?
+        pnames = [x[0] for x in parse_sexp(sexp)[1:]]
+        related = [(a, b) for a in pnames for b in pnames if a != b and (b.startswith(a) or a.lower() == b.lower())]
+        if related:
+            name_relations["worlds_with_prefix_or_case_related_packages"] = name_relations.get("worlds_with_prefix_or_case_related_packages", 0) + 1
+            for q in parse_sexp(sexp)[1:]:
+                for it in q[3][1:]:
+                    if it[0] == "impl":
+                        named = [n for n in (it[3], it[5], it[6]) if n not in ("-", "int32")]
+                        if any((q[0], n) in related or (n, q[0]) in related for n in named):
+                            name_relations["impls_across_a_related_pair"] = name_relations.get("impls_across_a_related_pair", 0) + 1
+                    elif (q[0], it[3]) in related or (it[3], q[0]) in related:
+                        name_relations["uses_across_a_related_pair"] = name_relations.get("uses_across_a_related_pair", 0) + 1
         oc = "accept" if real == "(accept)" else ("reject graph " + real.split()[3].strip("()") if "(graph" in real else real.strip("()"))
         outcomes[oc] = outcomes.get(oc, 0) + 1
         world = parse_sexp(sexp)
@@ -232,6 +246,7 @@ def run(ctx):
         "samples": samples, "worlds": len(cases), "worlds_equal": n_eq, "model_diffs": len(diffs),
         "graph_shapes": shapes, "outcomes": dict(sorted(outcomes.items(), key=lambda kv: -kv[1])),
         "placements": dict(sorted(placements.items())), "oracle_rejection_reasons": reasons_count,
+        "confusable_package_names": name_relations,
         "uses_of_transitive_only_packages_in_reachable_packages": n_transitive_reachable,
         "benign_flow_through_transitive_only_package_alone_in_its_world": flow_transitive,
         "phases_s": {"extract_and_lean": round(t1 - t0, 1), "harness_build": round(t2 - t1, 1), "harness_run": round(t3 - t2, 1),
